@@ -450,6 +450,8 @@ fn exec_command(command: Command, comms: &mut Comms, context: &mut Option<DoerCo
                 trace!("Setting modifited time of '{}'", full_path.display());
                 let r =
                     filetime::set_file_mtime(&full_path, filetime::FileTime::from_system_time(t));
+                #[cfg(rjrssync_verif)] let r = verif_hooks::after_set_mtime(r);
+                #[cfg(rjrssync_verif)] verif_hooks::point("stamped");
                 if let Err(e) = r {
                     comms.send_response(Response::Error(format!("Error setting modified time of '{}': {e}", full_path.display())))?;
                     return Ok(true);
